@@ -314,8 +314,15 @@ StateAt(W, k, l, s) ==
        IN Tup([i \in 1..NX(W.d) |-> SumSeq(Tup([r \in 1..Len(tr) |-> Mul(w[r], Xc[r][i])]))])
   ELSE PolyVec(W.res[k + 1].coefs[l + 1], s)
 
+\* algebraic variables between the collocation times: the interpolant through the step's collocation values
+ZAt(W, k, l, s) ==
+  LET st == W.res[k + 1].roots[l + 1]
+      tau == Tau(W.d.method.scheme, W.d.method.degree)
+      w == ZInterp(tau, Div(s, StepLen(W, k)))
+  IN Tup([i \in 1..NZ(W.d) |-> SumSeq(Tup([j \in 1..Len(tau) |-> Mul(w[j], st.zr[j][i])]))])
 EnvDense(W, k, l, s) ==
-  [EnvIntg(W, k, l) EXCEPT !.x = StateAt(W, k, l, s), !.t = Add(W.ig[k * W.M + l + 1], s)]
+  [EnvIntg(W, k, l) EXCEPT !.x = StateAt(W, k, l, s), !.t = Add(W.ig[k * W.M + l + 1], s),
+                           !.z = IF W.d.method.kind = "DC" /\ NZ(W.d) > 0 THEN ZAt(W, k, l, s) ELSE @]
 \* the very last sample: end of the last step's polynomial, final-node values of everything else
 EnvDenseEnd(W) ==
   [EnvNode(W, W.N) EXCEPT !.x = StateAt(W, W.N - 1, W.M - 1, StepLen(W, W.N - 1))]
